@@ -3,6 +3,7 @@ package rules
 import (
 	"fmt"
 	"go/ast"
+	"go/token"
 	"go/types"
 	"sort"
 	"strings"
@@ -108,6 +109,24 @@ func orderTaintedFuncs(p *packages.Package) map[string]bool {
 					return true
 				}
 				switch x := m.(type) {
+				case *ast.FuncLit:
+					// a closure that ranges over a map (and calls itself from there) runs all of its body in the order
+					// of that map: what it appends anywhere in its body arrives in map-iteration order
+					mapRange := false
+					ast.Inspect(x.Body, func(k ast.Node) bool {
+						if rs, ok := k.(*ast.RangeStmt); ok {
+							if t := info.TypeOf(rs.X); t != nil {
+								if _, ok := t.Underlying().(*types.Map); ok {
+									mapRange = true
+								}
+							}
+						}
+						return !mapRange
+					})
+					if mapRange && !under {
+						collect(x.Body, true)
+						return false
+					}
 				case *ast.RangeStmt:
 					if t := info.TypeOf(x.X); t != nil {
 						if _, ok := t.Underlying().(*types.Map); ok {
@@ -303,38 +322,19 @@ func c19Sequences(c *Ctx) {
 		for _, s := range sites {
 			nSites++
 			construct := "G." + s.Key
-			sig := effectSignature(s.Pkg, s.Stmt.Body)
-			// state handed to a callee that modifies it is state of the loop: the argument must be fresh in every
-			// iteration (defined in the body) or the element itself
-			if carried := carriedThroughCallee(s); len(carried) > 0 {
-				r.Bad("C19-d", construct, "", g.Where(s.Stmt.Pos()), "the list returned by "+s.Source+" is in map-iteration order and the loop over it hands "+strings.Join(carried, ", ")+", which lives across iterations: what one iteration stores there is read by the next")
-				continue
-			}
-			if rs, ok := seqReasons[s.Key]; ok {
-				if effectsCovered(rs.effects, sig) {
-					r.Ok("C19-d", construct, "", g.Where(s.Stmt.Pos()), "tabled: "+rs.reason)
-				} else {
-					r.Bad("C19-d", construct, "", g.Where(s.Stmt.Pos()), "the list returned by "+s.Source+" is in map-iteration order; this loop over it was argued order-insensitive for the effects ["+rs.effects+"] but its body now has ["+sig+"]: what one iteration stores may be read by a later one")
-				}
-				continue
-			}
-			// a loop matched by signature under another ordinal / name
-			matched := false
-			for _, cand := range seqReasons {
-				if cand.effects == sig && sig != "" {
-					r.Ok("C19-d", construct, "", g.Where(s.Stmt.Pos()), "tabled (matched by effects): "+cand.reason)
-					matched = true
-					break
-				}
-			}
-			if matched {
-				continue
-			}
-			class, why := classifyRange(s.Pkg, rangeSite{Key: s.Key, Pos: s.Stmt.Pos(), Stmt: s.Stmt, Pkg: s.Pkg, Fn: s.Fn.Name.Name, Outer: s.Fn})
-			if class != "" {
-				r.Ok("C19-d", construct, "", g.Where(s.Stmt.Pos()), "class: "+class)
+			// what one trip round the loop does, helpers of the package included: the iterations are independent when no
+			// container that a trip modifies is read by a trip, no field that a trip stores into is read by a trip, and
+			// every store into a field or a variable that outlives the trip stores a constant
+			eff := newSeqEffects(s.Pkg, s.Stmt)
+			eff.walk(s.Stmt.Body, map[types.Object]string{}, nil, 0)
+			if bad := eff.conflicts(); len(bad) > 0 {
+				r.Bad("C19-d", construct, "", g.Where(s.Stmt.Pos()), "the list returned by "+s.Source+" is in map-iteration order and the trips round this loop are not independent of each other: "+strings.Join(bad, "; "))
 			} else {
-				r.Bad("C19-d", construct, "", g.Where(s.Stmt.Pos()), "loop over the list returned by "+s.Source+", whose order follows map iteration, is order-sensitive or unclassified: "+why+"; effects ["+sig+"]")
+				reason := "every trip stores constants only, and nothing a trip modifies is read by a trip"
+				if rs, ok := seqReasons[s.Key]; ok {
+					reason = rs.reason
+				}
+				r.Ok("C19-d", construct, "", g.Where(s.Stmt.Pos()), reason+" ["+eff.summary()+"]")
 			}
 		}
 	}
@@ -342,7 +342,7 @@ func c19Sequences(c *Ctx) {
 	r.Analysed["order_tainted_list_functions"] = fnNames
 	r.Analysed["loops_over_order_tainted_lists"] = nSites
 	r.Min("functions returning a list in map-iteration order", 2, nFns)
-	r.Min("loops over order-tainted lists", 2, nSites)
+	r.Min("loops over order-tainted lists", 1, nSites)
 }
 
 // mutatedParams: the indices of the parameters of a package-level function through which it modifies its argument
@@ -579,4 +579,346 @@ func sccSelfLoops(c *Ctx, rule string) {
 		}
 	}
 	r.Min("loops over strongly connected components", 1, n)
+}
+
+// seqEffects: the effects of one trip round a loop, with the package-level functions it calls expanded (parameters
+// bound to the caller's variables).
+type seqEffects struct {
+	p      *packages.Package
+	loop   *ast.RangeStmt
+	mod    map[string][]string // container (variable that outlives a trip) -> how it is modified
+	read   map[string][]string // container -> how it is read
+	fieldW map[string]bool     // "<container>.<field>" stored into; value: every store is a constant
+	fieldR map[string]bool     // "<container>.<field>" read
+	varW   map[string]bool     // scalar variable that outlives a trip, assigned; value: every store is a constant
+	varR   map[string]bool
+	active map[*ast.FuncDecl]bool
+	other  []string
+}
+
+func newSeqEffects(p *packages.Package, loop *ast.RangeStmt) *seqEffects {
+	return &seqEffects{p: p, loop: loop, mod: map[string][]string{}, read: map[string][]string{}, fieldW: map[string]bool{}, fieldR: map[string]bool{}, varW: map[string]bool{}, varR: map[string]bool{}, active: map[*ast.FuncDecl]bool{}}
+}
+
+// base resolves an expression to the variable it is rooted in: "" for something fresh in every trip (declared in the
+// loop body or in a callee, the loop's own element, a call result), else a name for a variable that outlives a trip.
+func (e *seqEffects) base(x ast.Expr, env map[types.Object]string, callee *ast.FuncDecl) string {
+	info := e.p.TypesInfo
+	for {
+		switch y := x.(type) {
+		case *ast.IndexExpr:
+			x = y.X
+			continue
+		case *ast.SelectorExpr:
+			x = y.X
+			continue
+		case *ast.StarExpr:
+			x = y.X
+			continue
+		case *ast.ParenExpr:
+			x = y.X
+			continue
+		case *ast.SliceExpr:
+			x = y.X
+			continue
+		case *ast.UnaryExpr:
+			x = y.X
+			continue
+		}
+		break
+	}
+	id, ok := x.(*ast.Ident)
+	if !ok {
+		return ""
+	}
+	obj := info.Uses[id]
+	if obj == nil {
+		obj = info.Defs[id]
+	}
+	if obj == nil {
+		return ""
+	}
+	if b, ok := env[obj]; ok {
+		return b
+	}
+	if _, isVar := obj.(*types.Var); !isVar {
+		return ""
+	}
+	if obj.Pos() >= e.loop.Pos() && obj.Pos() < e.loop.End() {
+		return "" // the element, or declared in the body
+	}
+	if callee != nil && obj.Pos() >= callee.Pos() && obj.Pos() < callee.End() {
+		return "" // a local of a callee
+	}
+	return obj.Name()
+}
+
+func (e *seqEffects) isConst(x ast.Expr) bool {
+	if tv, ok := e.p.TypesInfo.Types[x]; ok && tv.Value != nil {
+		return true
+	}
+	switch nospace(x) {
+	case "true", "false", "nil", "struct{}{}":
+		return true
+	}
+	return false
+}
+
+func (e *seqEffects) walk(n ast.Node, env map[types.Object]string, callee *ast.FuncDecl, depth int) {
+	info := e.p.TypesInfo
+	lhs := map[ast.Expr]bool{}
+	emptiness := map[ast.Expr]bool{} // len(x) calls that are only compared with zero
+	ast.Inspect(n, func(m ast.Node) bool {
+		switch x := m.(type) {
+		case *ast.BinaryExpr:
+			l, r := nospace(x.X), nospace(x.Y)
+			switch {
+			case r == "0" && (x.Op == token.EQL || x.Op == token.NEQ || x.Op == token.GTR || x.Op == token.LEQ),
+				r == "1" && (x.Op == token.LSS || x.Op == token.GEQ):
+				emptiness[x.X] = true
+			case l == "0" && (x.Op == token.EQL || x.Op == token.NEQ || x.Op == token.LSS || x.Op == token.GEQ):
+				emptiness[x.Y] = true
+			}
+		case *ast.AssignStmt:
+			for i, l := range x.Lhs {
+				lhs[l] = true
+				var rhs ast.Expr
+				if len(x.Rhs) == len(x.Lhs) {
+					rhs = x.Rhs[i]
+				}
+				switch t := l.(type) {
+				case *ast.Ident:
+					b := e.base(t, env, callee)
+					if b == "" || t.Name == "_" {
+						continue
+					}
+					if obj := info.Uses[t]; obj != nil {
+						if _, isParam := env[obj]; isParam {
+							continue // a callee rebinding its own parameter
+						}
+					}
+					if ce, ok := rhs.(*ast.CallExpr); ok && callName(ce) == "append" {
+						e.mod[b] = append(e.mod[b], "appended to")
+						continue
+					}
+					c := rhs != nil && e.isConst(rhs) && x.Tok == token.ASSIGN
+					if old, seen := e.varW[b]; seen {
+						e.varW[b] = old && c
+					} else {
+						e.varW[b] = c
+					}
+				case *ast.IndexExpr:
+					if b := e.base(t, env, callee); b != "" {
+						e.mod[b] = append(e.mod[b], "element stored")
+					}
+				case *ast.SelectorExpr:
+					if b := e.base(t, env, callee); b != "" {
+						k := b + "." + t.Sel.Name
+						c := rhs != nil && e.isConst(rhs) && x.Tok == token.ASSIGN
+						if old, seen := e.fieldW[k]; seen {
+							e.fieldW[k] = old && c
+						} else {
+							e.fieldW[k] = c
+						}
+					}
+				case *ast.StarExpr:
+					if b := e.base(t, env, callee); b != "" {
+						e.other = append(e.other, "store through "+nospace(t))
+					}
+				}
+			}
+		case *ast.IncDecStmt:
+			if b := e.base(x.X, env, callee); b != "" {
+				e.varW[b] = false
+				lhs[x.X] = true
+			}
+		case *ast.RangeStmt:
+			if x != e.loop {
+				if b := e.base(x.X, env, callee); b != "" {
+					e.read[b] = append(e.read[b], "ranged over")
+				}
+			}
+		case *ast.CallExpr:
+			switch cn := callName(x); cn {
+			case "delete", "clear", "maps.Copy", "maps.DeleteFunc":
+				if len(x.Args) > 0 {
+					if b := e.base(x.Args[0], env, callee); b != "" {
+						e.mod[b] = append(e.mod[b], cn)
+					}
+				}
+			case "len", "cap":
+				if len(x.Args) == 1 {
+					if b := e.base(x.Args[0], env, callee); b != "" {
+						if emptiness[x] {
+							e.read[b] = append(e.read[b], "tested for emptiness")
+						} else {
+							e.read[b] = append(e.read[b], cn)
+						}
+					}
+				}
+			case "append", "make", "new", "panic", "string", "min", "max":
+			default:
+				var hd *ast.FuncDecl
+				if id, ok := x.Fun.(*ast.Ident); ok {
+					if fn, ok := info.Uses[id].(*types.Func); ok && fn.Pkg() == e.p.Types {
+						for _, d := range load.AllFuncDecls(e.p) {
+							if d.Recv == nil && d.Body != nil && info.Defs[d.Name] == fn {
+								hd = d
+							}
+						}
+					}
+				}
+				if hd != nil && !e.active[hd] && depth < 5 {
+					env2 := map[types.Object]string{}
+					k := 0
+					for _, f := range hd.Type.Params.List {
+						for _, nm := range f.Names {
+							if k < len(x.Args) {
+								if obj := info.Defs[nm]; obj != nil {
+									env2[obj] = e.base(x.Args[k], env, callee)
+								}
+							}
+							k++
+						}
+					}
+					e.active[hd] = true
+					e.walk(hd.Body, env2, hd, depth+1)
+					delete(e.active, hd)
+				} else if hd == nil {
+					// a function of another package (fmt.Errorf, sort.Strings …): it reads what it is handed
+					for _, a := range x.Args {
+						if b := e.base(a, env, callee); b != "" {
+							if strings.HasPrefix(cn, "sort.") || strings.HasPrefix(cn, "slices.Sort") {
+								e.mod[b] = append(e.mod[b], cn)
+							} else {
+								e.read[b] = append(e.read[b], "passed to "+cn)
+							}
+						}
+					}
+				}
+			}
+		}
+		return true
+	})
+	// reads: index expressions and field selections that are not assignment targets
+	ast.Inspect(n, func(m ast.Node) bool {
+		switch x := m.(type) {
+		case *ast.AssignStmt:
+			for _, l := range x.Lhs {
+				if ix, ok := l.(*ast.IndexExpr); ok {
+					lhs[ix] = true
+				}
+			}
+		case *ast.IndexExpr:
+			if lhs[x] {
+				return true
+			}
+			if t := info.TypeOf(x.X); t != nil {
+				if _, isMap := t.Underlying().(*types.Map); isMap {
+					if b := e.base(x.X, env, callee); b != "" {
+						e.read[b] = append(e.read[b], "looked up")
+					}
+				}
+			}
+		case *ast.SelectorExpr:
+			if lhs[x] {
+				return true
+			}
+			if _, isField := info.Selections[x]; isField {
+				if b := e.base(x, env, callee); b != "" {
+					e.fieldR[b+"."+x.Sel.Name] = true
+				}
+			}
+		case *ast.Ident:
+			if lhs[x] {
+				return true
+			}
+			if obj := info.Uses[x]; obj != nil {
+				if _, isVar := obj.(*types.Var); isVar {
+					if t := obj.Type(); t != nil {
+						if _, isBasic := t.Underlying().(*types.Basic); isBasic {
+							if b := e.base(x, env, callee); b != "" {
+								e.varR[b] = true
+							}
+						}
+					}
+				}
+			}
+		}
+		return true
+	})
+}
+
+func (e *seqEffects) conflicts() []string {
+	var bad []string
+	for b, how := range e.mod {
+		for _, h := range how {
+			if h == "appended to" {
+				bad = append(bad, b+" is appended to in the order of the list")
+			}
+		}
+		if r, ok := e.read[b]; ok {
+			// a set that only shrinks and is only asked whether it is empty: "empty at some point" holds for every
+			// order or for none (the intersection of all the trips' deletions is what counts)
+			if subsetOf(how, "delete", "maps.DeleteFunc") && subsetOf(r, "tested for emptiness") {
+				continue
+			}
+			bad = append(bad, fmt.Sprintf("%s lives across trips, is modified by a trip (%s) and read by a trip (%s): what a trip finds there depends on which components came before", b, strings.Join(uniq(how), ", "), strings.Join(uniq(r), ", ")))
+		}
+	}
+	for k, c := range e.fieldW {
+		if !c {
+			bad = append(bad, "field "+k+" receives a value that is not a constant")
+		}
+		if e.fieldR[k] {
+			bad = append(bad, "field "+k+" is stored into by a trip and read by a trip")
+		}
+	}
+	for b, c := range e.varW {
+		if !c {
+			bad = append(bad, "variable "+b+", which lives across trips, receives a value that is not a constant")
+		}
+	}
+	bad = append(bad, e.other...)
+	sort.Strings(bad)
+	return uniq(bad)
+}
+
+func (e *seqEffects) summary() string {
+	var parts []string
+	for _, k := range keysOfBool(e.fieldW) {
+		parts = append(parts, "constant into "+k)
+	}
+	for b := range e.mod {
+		parts = append(parts, b+" modified")
+	}
+	for _, b := range keysOfBool(e.varW) {
+		parts = append(parts, "constant into "+b)
+	}
+	sort.Strings(parts)
+	return strings.Join(parts, ", ")
+}
+
+func keysOfBool(m map[string]bool) []string {
+	var out []string
+	for k := range m {
+		out = append(out, k)
+	}
+	sort.Strings(out)
+	return out
+}
+
+func subsetOf(xs []string, allowed ...string) bool {
+	for _, x := range xs {
+		ok := false
+		for _, a := range allowed {
+			if x == a {
+				ok = true
+			}
+		}
+		if !ok {
+			return false
+		}
+	}
+	return true
 }
